@@ -11,22 +11,13 @@ variable {seed : Nat → Nat}
 theorem attempt_stop {n k : Nat} (h : n * k ≥ W) : attempt seed n k = some .stop := by
   unfold attempt; rw [if_pos h]
 
-/-- `n·k` a perfect square other than `n` itself: `q = nk − nsqrt² = 0` and the first iteration
-divides by it (squfof.rs:33). -/
-theorem attempt_square_panic (hs : SeedOK seed) {n k : Nat} (hk : 1 ≤ k) (hlt : n * k < W)
+/-- `n·k` a perfect square that the square test does not accept (`⌊√(nk)⌋² ≠ n`, i.e. `k ≥ 2`):
+`q = nk − nsqrt² = 0` and the round is skipped (squfof.rs:26; before the repair f24afb6 the first
+iteration divided by `q`). -/
+theorem attempt_square_skips (hs : SeedOK seed) {n k : Nat} (hlt : n * k < W)
     (hsq : Nat.sqrt (n * k) * Nat.sqrt (n * k) = n * k) (hne : n * k ≠ n) :
-    attempt seed n k = none := by
-  rw [attempt_eq hs hlt, if_neg (by omega)]
-  have hn1 : 1 ≤ n := by
-    rcases Nat.eq_zero_or_pos n with h | h
-    · subst h; simp at hne
-    · exact h
-  have hnk : 0 < n * k := Nat.mul_pos hn1 hk
-  have hs1 : 0 < Nat.sqrt (n * k) := Nat.sqrt_pos.2 hnk
-  have hs2 : 0 < Nat.sqrt (Nat.sqrt (n * k)) := Nat.sqrt_pos.2 hs1
-  obtain ⟨f, hf⟩ : ∃ f, 3 * Nat.sqrt (Nat.sqrt (n * k)) = f + 1 := ⟨_, (Nat.sub_add_cancel (by omega)).symm⟩
-  rw [hsq, Nat.sub_self, hf, fwdLoop, if_neg (by omega), step_q0]
-  rfl
+    attempt seed n k = some .next := by
+  rw [attempt_eq hs hlt, if_neg (by omega), if_pos (by omega)]
 
 /-- `n·k < 2^64` not a perfect square: the round completes without panic; it returns through
 the square test (only if `⌊√(nk)⌋² = n`), continues, or leaves through the gcd exit with
@@ -47,6 +38,7 @@ theorem attempt_nonsquare (hs : SeedOK seed) {n k : Nat} (hlt : n * k < W)
     have hs2 : 0 < Nat.sqrt (Nat.sqrt (n * k)) := Nat.sqrt_pos.2 hs1
     have hinv : Inv (n * k) (Nat.sqrt (n * k)) (Nat.sqrt (n * k)) 1
         (n * k - Nat.sqrt (n * k) * Nat.sqrt (n * k)) := ⟨by omega, hs1, Nat.le_refl _, by omega⟩
+    rw [if_neg (by omega)]
     rcases fwdLoop_ok hs c (3 * Nat.sqrt (Nat.sqrt (n * k))) (3 * Nat.sqrt (Nat.sqrt (n * k))) 1 _ _ _
         hinv (by omega) (by omega) with h | ⟨qs, p, Qb, h, hb⟩
     · rw [h]; exact ⟨_, rfl, Or.inr (Or.inl rfl)⟩
@@ -54,23 +46,16 @@ theorem attempt_nonsquare (hs : SeedOK seed) {n k : Nat} (hlt : n * k < W)
       obtain ⟨r, hr, hg⟩ := finish_ok c n (3 * Nat.sqrt (Nat.sqrt (n * k))) hb
       exact ⟨r, hr, Or.inr hg⟩
 
-/-- **exactly when a round panics** -/
-theorem attempt_none_iff (hs : SeedOK seed) {n k : Nat} (hk : 1 ≤ k) :
-    attempt seed n k = none ↔
-      n * k < W ∧ Nat.sqrt (n * k) * Nat.sqrt (n * k) = n * k ∧ n * k ≠ n := by
-  constructor
-  · intro h
-    rcases Nat.lt_or_ge (n * k) W with hlt | hge
-    · by_cases hsq : Nat.sqrt (n * k) * Nat.sqrt (n * k) = n * k
-      · refine ⟨hlt, hsq, ?_⟩
-        intro he
-        rw [attempt_eq hs hlt, if_pos (by omega)] at h
-        simp at h
-      · obtain ⟨r, hr, _⟩ := attempt_nonsquare hs hlt hsq
-        rw [hr] at h; simp at h
-    · rw [attempt_stop hge] at h; simp at h
-  · rintro ⟨h1, h2, h3⟩
-    exact attempt_square_panic hs hk h1 h2 h3
+/-- **no round panics**: every multiplier, every `n` -/
+theorem attempt_total (hs : SeedOK seed) (n k : Nat) : ∃ r, attempt seed n k = some r := by
+  rcases Nat.lt_or_ge (n * k) W with hlt | hge
+  · by_cases hsq : Nat.sqrt (n * k) * Nat.sqrt (n * k) = n * k
+    · by_cases he : n * k = n
+      · rw [attempt_eq hs hlt, if_pos (by omega)]; exact ⟨_, rfl⟩
+      · exact ⟨_, attempt_square_skips hs hlt hsq he⟩
+    · obtain ⟨r, hr, _⟩ := attempt_nonsquare hs hlt hsq
+      exact ⟨r, hr⟩
+  · exact ⟨_, attempt_stop hge⟩
 
 /-! ### the multiplier loop -/
 
@@ -105,27 +90,6 @@ theorem kLoop_first (n : Nat) : ∀ (f k : Nat) (r : Option (Option (Nat × Nat)
           · have := hnext (i - 1) (by omega)
             rwa [show k + 1 + (i - 1) = k + i by omega] at this
         · rwa [show k + 1 + j = k + (j + 1) by omega] at hres
-
-theorem kLoop_none_of (n : Nat) : ∀ (f k j : Nat), j < f → attempt seed n (k + j) = none →
-    (∀ i, i < j → attempt seed n (k + i) = some .next) → kLoop seed n f k = none := by
-  intro f
-  induction f with
-  | zero => intro k j hj; omega
-  | succ f ih =>
-    intro k j hj hnone hnext
-    rw [kLoop]
-    rcases Nat.eq_zero_or_pos j with h0 | h0
-    · subst h0
-      rw [Nat.add_zero] at hnone
-      rw [hnone]
-    · have h1 := hnext 0 h0
-      rw [Nat.add_zero] at h1
-      rw [h1]
-      apply ih (k + 1) (j - 1) (by omega)
-      · rwa [show k + 1 + (j - 1) = k + j by omega]
-      · intro i hi
-        have := hnext (i + 1) (by omega)
-        rwa [show k + 1 + i = k + (i + 1) by omega]
 
 /-! ### the seed does not matter -/
 
